@@ -21,7 +21,18 @@ import (
 	"github.com/B1NARY-GR0UP/originium/types"
 )
 
+// Merge sorted lists, the entry from the newest list wins for a duplicated key and deleted entries are dropped
 func Merge(lists ...[]types.Entry) []types.Entry {
+	return merge(false, lists...)
+}
+
+// MergeVersions same as Merge but tombstones are kept,
+// a tombstone is a version of its key and must keep shadowing older versions stored in other sstables
+func MergeVersions(lists ...[]types.Entry) []types.Entry {
+	return merge(true, lists...)
+}
+
+func merge(keepTombstone bool, lists ...[]types.Entry) []types.Entry {
 	h := &Heap{}
 	heap.Init(h)
 
@@ -55,7 +66,7 @@ func Merge(lists ...[]types.Entry) []types.Entry {
 	var merged []types.Entry
 
 	for _, entry := range latest {
-		if entry.Tombstone {
+		if entry.Tombstone && !keepTombstone {
 			continue
 		}
 		merged = append(merged, entry)
